@@ -184,6 +184,9 @@ def run_history(ops, props=None):
             _, name, ci, tag, cts = op
             if tag is not None:
                 tag = int(str(tag))                   # a fresh int object (identity differs from equal constants)
+                if tag == 3:
+                    import numpy as np
+                    tag = np.int64(3)                 # a tag taken from a numpy array: an explicit tag all the same
             o = w.K[ci](name.split('#')[0], m) if tag is None else w.K[ci](name.split('#')[0], m, tag)
             w.objs[name] = o
             w.ocomps[name] = {}
@@ -235,6 +238,15 @@ def run_history(ops, props=None):
                     out.append(('C04', f'{where}: DuplicateAgentError but identifier free / placement out of bounds'))
                 if monitor.fingerprint((env.agents, m.systems.component_pools, o.components)) != before:
                     out.append(('C04', f'{where}: rejected add left a trace'))
+            except ValueError as ex:
+                # the joiner already carried a position component (op 'attachpos'): an undocumented failure; whatever
+                # the environment decided, its listings must agree with who is resident afterwards
+                if env.agents.get(o.id) is o and name not in w.resident[k]:
+                    w.resident[k].append(name)
+                    if spatial:
+                        from ECAgent.Environments import PositionComponent
+                        pc = o[PositionComponent]
+                        w.opos[name] = (pc.x, pc.y, pc.z)
             except Exception as ex:
                 if type(ex) is not Exception or not oob:
                     out.append(('C04', f'{where}: unexpected {type(ex).__name__}: {ex}'))
@@ -316,6 +328,11 @@ def run_history(ops, props=None):
                     out.append(('C04', f'{where}: AgentNotFoundError for a live id / non-strict lookup'))
             if monitor.fingerprint((env.agents, m.systems.component_pools)) != before:
                 out.append(('C04', f'{where}: lookup changed the environment'))
+        elif kind == 'attachpos':
+            from ECAgent.Environments import PositionComponent
+            o = w.objs.get(op[1])
+            if o is not None and PositionComponent not in o:
+                o.add_component(PositionComponent(o, m, 0, 0, 0))
         elif kind in ('attach', 'detach'):
             name, ct = op[1], op[2]
             o = w.objs.get(name)
@@ -518,6 +535,10 @@ def small_histories(prop):
         yield ops
     for kd in ('plain', 'space', 'grid'):
         yield [('envcls', kd, 6), _mk('a', 0), ('envcls', kd, 0)]
+    if prop == 'C03':
+        for kind, dims in (('grid', (3, 3, 0)), ('space', (4.0, 4.0, 0.0))):
+            yield [('world', kind) + dims + (False,), _mk('a', 0, None, (0, 1)), _mk('b', 0, None, (0,)), ('attachpos', 'a'),
+                   ('add', 'b', 1, 1, 0), ('add', 'a', 0, 0, 0), ('query', [0], 'none'), ('query', [1], 'none')]
     # deprecated alias in every world kind
     for kind, dims in (('plain', (0, 0, 0)), ('space', (4, 4, 0)), ('grid', (3, 3, 0)), ('discrete', (2, 2, 2))):
         ops = [('world', kind) + dims + (False,)] if kind != 'plain' else []
